@@ -1,4 +1,4 @@
-CONSTANTS Threads = {"a", "b", "c", "d"} Hosts = {"A", "B"} Prog <- MCProg Timed = FALSE
+CONSTANTS Threads = {"a", "b", "c"} Hosts = {"A", "B"} Prog <- MCProg Timed = FALSE
   Dev_NotifyOne = FALSE Dev_RelNoNotify = FALSE Dev_NoClosingCheck = FALSE Dev_NotExclusive = FALSE
 SPECIFICATION Spec
 INVARIANT Exclusive
